@@ -36,7 +36,7 @@ def exprsStmt : Stmt → List Expr
   | .update w _ sets wh ob _ => exprsOW w ++ (sets.map (·.2) ++ (wh.toList ++ oiEs ob))
   | .delete _ wh ob _ => wh.toList ++ oiEs ob
   | .createTable c => exprsCreate c
-  | .createTableAs _ q => exprsQ q
+  | .createTableAs _ _ q => exprsQ q
   | .analyze _ p _ _ _ => p.getD []
   | .alter _ ops => ops.flatMap exprsAO
   | .showColumns fr wh => exprsFs fr ++ wh.toList
